@@ -328,6 +328,8 @@ func AsObjects(m map[string]any) (map[string]Object, error) {
 	result := make(map[string]Object, len(m))
 	for k, v := range m {
 		switch v := v.(type) {
+		case nil:
+			result[k] = Nil
 		case Object:
 			result[k] = v
 		default:
